@@ -228,7 +228,9 @@ func (x *xpoaConsensus) CheckMinerMatch(ctx xcontext.XContext, block cctx.BlockI
 	preBlock, _ := x.election.ledger.QueryBlock(block.GetPreHash())
 	preConStoreBytes, _ := preBlock.GetConsensusStorage()
 	err = x.smr.GetSaftyRules().CheckProposal(pNode.In, justify,
-		x.election.GetLocalValidates(preBlock.GetTimestamp(), justify.GetProposalView(), preConStoreBytes))
+		// the set in force for the certified block: its height comes from the ledger, not from the
+		// view number the certificate claims for itself (votes sign the proposal id only)
+		x.election.GetLocalValidates(preBlock.GetTimestamp(), preBlock.GetHeight(), preConStoreBytes))
 	if err != nil {
 		ctx.GetLog().Warn("Xpoa::CheckMinerMatch::bft IsQuorumCertValidate failed", "logid", ctx.GetLog().GetLogId(),
 			"proposalQC:[height]", pNode.In.GetProposalView(), "proposalQC:[id]", utils.F(pNode.In.GetProposalId()),
